@@ -2,10 +2,11 @@
 import ast
 
 from sa import typestate
-from sa.astutil import (call_name, calls_in, dotted, norm, walk_no_nested, last_attr,
+from sa.astutil import (try_fold, facts_at, call_name, calls_in, dotted, norm, walk_no_nested, last_attr,
                         fact_texts, guards_of, func_params, names_in, enclosing_function)
 from sa.flow import Analysis
 from sa.loader import AnalysisError
+from sa.canon import canon
 from checks.c02 import make_world
 
 DISPLAY_FLAG = 'display_coupled_residues'
@@ -306,7 +307,18 @@ def run(ctx):
            'couple_non_covalently (writers %s)' % sorted(writers), gmod, gmod.func('Group.couple_non_covalently'))
     # coupling is registered exactly when the probe reports a positive factor
     reg = [c for c in calls_in(ident) if last_attr(c) == 'couple_non_covalently']
-    ok = len(reg) == 1 and any(p and "data['coupling_factor'] > 0.0" in t for t, p in fact_texts(reg[0], ident))
+    ican = canon(ident)
+
+    def positive_factor(e, p):
+        # <result of is_coupled_protonation_state_probability(...)>['coupling_factor'] > 0
+        if not (p and isinstance(e, ast.Compare) and isinstance(e.ops[0], ast.Gt)
+                and try_fold(e.comparators[0]) == 0):
+            return False
+        left = ican.expr(e.left)
+        return isinstance(left, ast.Subscript) and isinstance(left.slice, ast.Constant) \
+            and left.slice.value == 'coupling_factor' and isinstance(left.value, ast.Call) \
+            and last_attr(left.value) == 'is_coupled_protonation_state_probability'
+    ok = len(reg) == 1 and any(positive_factor(e, p) for e, p in facts_at(reg[0], ident))
     ctx.ob('C15.R4', 'coupling:registered-on-positive-factor', ok,
            'groups are coupled exactly when the probe returns a positive coupling factor', cmod,
            reg[0] if reg else ident)
